@@ -21,6 +21,7 @@ def confirm(sid, crate, dest):
     rc, o = sh(f"git apply --check {out}/patch.diff", wt); res["applies"] = rc == 0
     if rc != 0:
         res["apply_error"] = o[-500:]; return res
+    os.makedirs(os.path.dirname(os.path.join(wt, dest)), exist_ok=True)
     shutil.copy(f"{out}/demo_test.rs", os.path.join(wt, dest))
     test = os.path.splitext(os.path.basename(dest))[0]
     rc, o = sh(f"cargo test -p {crate} --test {test} --offline 2>&1 | tail -15", wt); res["demo_without_change"] = "test result: ok" in o and "FAILED" not in o
@@ -30,7 +31,7 @@ def confirm(sid, crate, dest):
     res["demo_with_tail"] = o[-400:]
     os.remove(os.path.join(wt, dest))
     rc, o = sh("cargo test --workspace --no-fail-fast --offline 2>&1 | grep -E '^test result|^test .* FAILED|error(\\[|:)' ", wt)
-    failed = [l for l in o.split("\n") if "FAILED" in l and l.startswith("test ")]
+    failed = [l for l in o.split("\n") if l.startswith("test ") and l.rstrip().endswith("FAILED") and not l.startswith("test result")]
     res["suite_failed_tests"] = failed
     res["suite_ok"] = all("quote" in l for l in failed) and "error" not in o
     res["suite_passed"] = sum(int(l.split()[3]) for l in o.split("\n") if l.startswith("test result"))
